@@ -39,6 +39,13 @@ def cells(tier, seed):
                 out.append({'wc': w, 'wr': w, 'form': 2, 'mode': mode, 'shape': [rnd.choice(HS), rnd.choice(WS)],
                             'N': rnd.choice([1, 2, 4]), 'C': rnd.choice([1, 2, 3, 4, 5])})
                 w2 = rnd.choice([v for v in waves if refs.flen(v) != refs.flen(w)])
+                if rnd.random() < 0.2:
+                    # a different wavelet of the SAME length on the rows (identical shapes either way: only
+                    # the values tell the four outer products apart)
+                    same = [v for v in waves if v != w and refs.flen(v) == refs.flen(w) and
+                            pywt.Wavelet(v).dec_lo != pywt.Wavelet(w).dec_lo]
+                    if same:
+                        w2 = rnd.choice(same)
                 out.append({'wc': w, 'wr': w2, 'form': 4, 'mode': mode,
                             'shape': [rnd.choice(HS), rnd.choice(WS)], 'N': rnd.choice([1, 2, 4]),
                             'C': rnd.choice([1, 2, 3, 4, 5])})
